@@ -1,0 +1,178 @@
+//! Verification seams (only compiled with `--cfg meshless_voro_verif`).
+//!
+//! This module does not change the behaviour of the library: both seams are
+//! no-ops until a harness registers a callback, and the wrappers only expose
+//! private items. Nothing here depends on code outside this crate.
+
+use crate::bounding_sphere::{BoundingSphereSolver, Epos6, Welzl};
+use crate::geometry::Sphere;
+use crate::integrals::{CellIntegral, CellIntegralWithData, FaceIntegral, FaceIntegralWithData};
+use crate::space::Space;
+use crate::voronoi::convex_cell::{ConvexCell, ConvexCellMarker};
+use glam::DVec3;
+use std::sync::atomic::{AtomicUsize, Ordering};
+
+// ---------------------------------------------------------------------------
+// Seam registry
+// ---------------------------------------------------------------------------
+
+static SCHED_POINT: AtomicUsize = AtomicUsize::new(0);
+static HASH_ORDER: AtomicUsize = AtomicUsize::new(0);
+
+/// Sites at which `sched_point` is invoked.
+pub const SITE_BUILD_NEIGHBOUR_LOOP: u32 = 1;
+pub const SITE_WITH_FACES_VERTEX_LOOP: u32 = 2;
+pub const SITE_WITH_FACES_SORT_LOOP: u32 = 3;
+pub const SITE_DECOMPOSE_NEXT: u32 = 4;
+
+/// Register the callback invoked at scheduling points inside a cell.
+pub fn set_sched_point(f: Option<fn(u32)>) {
+    SCHED_POINT.store(f.map_or(0, |f| f as usize), Ordering::SeqCst);
+}
+
+/// Register the callback that owns the iteration order of the extremal point
+/// set of `Epos6::bounding_sphere`.
+pub fn set_hash_order(f: Option<fn(&mut Vec<usize>)>) {
+    HASH_ORDER.store(f.map_or(0, |f| f as usize), Ordering::SeqCst);
+}
+
+/// A point inside a cell's construction at which a scheduler may preempt.
+#[inline]
+pub(crate) fn sched_point(site: u32) {
+    let f = SCHED_POINT.load(Ordering::Relaxed);
+    if f != 0 {
+        // Safety: only ever stored from a `fn(u32)` in `set_sched_point`.
+        let f: fn(u32) = unsafe { std::mem::transmute(f) };
+        f(site);
+    }
+}
+
+/// Whether a harness owns the hash iteration order.
+#[inline]
+pub(crate) fn hash_order_active() -> bool {
+    HASH_ORDER.load(Ordering::Relaxed) != 0
+}
+
+/// Let the harness permute `order` (the sorted members of a hash set).
+#[inline]
+pub(crate) fn hash_order(order: &mut Vec<usize>) {
+    let f = HASH_ORDER.load(Ordering::Relaxed);
+    if f != 0 {
+        // Safety: only ever stored from a `fn(&mut Vec<usize>)` in `set_hash_order`.
+        let f: fn(&mut Vec<usize>) = unsafe { std::mem::transmute(f) };
+        f(order);
+    }
+}
+
+// ---------------------------------------------------------------------------
+// Wrappers around private items
+// ---------------------------------------------------------------------------
+
+/// `Welzl::bounding_sphere`: (center, radius).
+pub fn welzl(points: &[DVec3]) -> (DVec3, f64) {
+    let s = Welzl::bounding_sphere(points);
+    (s.center, s.radius)
+}
+
+/// `Epos6::bounding_sphere`: (center, radius).
+pub fn epos6_points(points: &[DVec3]) -> (DVec3, f64) {
+    let s = Epos6::bounding_sphere(points);
+    (s.center, s.radius)
+}
+
+/// `Epos6::bounding_sphere_of_spheres`: (center, radius).
+pub fn epos6_spheres(spheres: &[(DVec3, f64)]) -> (DVec3, f64) {
+    let spheres = spheres.iter().map(|&(c, r)| Sphere::new(c, r)).collect::<Vec<_>>();
+    let s = Epos6::bounding_sphere_of_spheres(&spheres);
+    (s.center, s.radius)
+}
+
+/// `Space::new` + `add_parts` + `knn`.
+pub fn space_knn(
+    anchor: DVec3,
+    width: DVec3,
+    max_cell_width: f64,
+    positions: &[DVec3],
+    k: usize,
+) -> Vec<Vec<usize>> {
+    let mut space = Space::new(anchor, width, max_cell_width);
+    space.add_parts(positions);
+    space.knn(k)
+}
+
+// ---------------------------------------------------------------------------
+// Integrals whose result identifies the cell / face they were evaluated for
+// ---------------------------------------------------------------------------
+//
+// They live in this crate because the `ConvexCellMarker` bound in the trait
+// signatures cannot be named from outside. Note that the blanket impls
+// `impl<T: CellIntegral> CellIntegralWithData for T` (and the face analogue)
+// fix `Data = ()` for every integral, so the `*_with_data` entry points can
+// only be instantiated with `D = ()`; these integrals are usable with both the
+// plain and the `*_with_data` entry points.
+
+/// Cell integral recording the index of the cell it was initialised for, the
+/// number of tetrahedra it was fed and that cell's volume.
+#[derive(Clone, Debug, Default)]
+pub struct TaggedCell {
+    pub idx: usize,
+    pub tets: usize,
+    pub volume: f64,
+}
+
+impl CellIntegral for TaggedCell {
+    fn init<M: ConvexCellMarker>(cell: &ConvexCell<M>) -> Self {
+        Self {
+            idx: cell.idx,
+            tets: 0,
+            volume: 0.,
+        }
+    }
+
+    fn collect(&mut self, v0: DVec3, v1: DVec3, v2: DVec3, gen: DVec3) {
+        self.tets += 1;
+        self.volume += crate::geometry::signed_volume_tet(v0, v1, v2, gen);
+    }
+
+    fn finalize(self) -> Self {
+        self
+    }
+}
+
+/// Face integral recording the cell and clipping plane it was initialised
+/// for, the number of triangles it was fed and the face's area.
+#[derive(Clone, Debug, Default)]
+pub struct TaggedFace {
+    pub cell_idx: usize,
+    pub plane_idx: usize,
+    pub tris: usize,
+    pub area: f64,
+}
+
+impl FaceIntegral for TaggedFace {
+    fn init<M: ConvexCellMarker>(cell: &ConvexCell<M>, clipping_plane_idx: usize) -> Self {
+        Self {
+            cell_idx: cell.idx,
+            plane_idx: clipping_plane_idx,
+            tris: 0,
+            area: 0.,
+        }
+    }
+
+    fn collect(&mut self, v0: DVec3, v1: DVec3, v2: DVec3, gen: DVec3) {
+        self.tris += 1;
+        self.area += crate::geometry::signed_area_tri(v0, v1, v2, gen);
+    }
+
+    fn finalize(self) -> Self {
+        self
+    }
+}
+
+#[allow(unused)]
+fn _assert_traits() {
+    fn cell<T: CellIntegralWithData<Data = ()>>() {}
+    fn face<T: FaceIntegralWithData<Data = ()>>() {}
+    cell::<TaggedCell>();
+    face::<TaggedFace>();
+}
